@@ -12,8 +12,21 @@ def main():
         ok2, mlog = vlib.coq_make([], timeout=6000)   # default target: everything
         print("coq make:", "ok" if ok2 else "FAILED\n" + mlog[-3000:])
         pk = vlib.harness_pkgs()
-        b, hlog = vlib.build_harness(pk[0]) if pk else ("", "")
-        print("harness:", "ok" if b else "FAILED\n" + hlog[-3000:])
+        import os, shutil
+        shutil.copyfile(os.path.join(vlib.REPO, "go", "go.sum"), os.path.join(vlib.HARNESS, "go.sum"))
+        for p in pk:
+            vlib.write_main(os.path.join(vlib.HARNESS, "cmd", "h_" + p, "main.go"), [p])
+        os.makedirs(vlib.BIN, exist_ok=True)
+        # all harness binaries in one go invocation (compiles shared packages once, links in parallel)
+        rc, o, e = vlib.sh(["go", "build", "-tags", "verif", "-o", vlib.BIN + "/"] + ["./cmd/h_" + p for p in pk],
+                           cwd=vlib.HARNESS, env=vlib.goenv(), timeout=6000)
+        b = "all"
+        if rc != 0:
+            print("combined harness build failed, building one by one:\n" + (o + e)[-2000:])
+            for p in pk:
+                b1, hlog = vlib.build_harness(p)
+                print("harness %s:" % p, "ok" if b1 else "FAILED\n" + hlog[-1500:])
+        print("harness: done")
     print("setup wall %.1fs" % (time.time() - t0))
     # setup itself succeeds even when a proof is broken: the per-property check reports it
     return 0 if b is not None else 1
